@@ -22,8 +22,12 @@ def scan(state, groups, tid):
     import contextlib, io, warnings
     p = {k: G.value(v) for k, v in state["par"].items()}
     kind = p.pop("solver")
+    opac = {"constant": {},
+            "lowrie": dict(sigA=44.94, sigS=0.4006, expDensity_abs=1.0, expTemp_abs=-3.5, expDensity_scat=1.0, expTemp_scat=0.0),
+            "kramers+scattering": dict(sigA=577.35, sigS=50.0, expDensity_abs=0.0, expTemp_abs=-3.5, expDensity_scat=0.0, expTemp_scat=0.0)}[p.pop("opac", "constant")]
     kw = dict(M0=p["M0"], rho0=p["rho0"], Tref=p["Tref"], gamma=p["gamma"], Cv=p["Cv"] * 1.4472799784454e12,
               expDensity_abs=p.get("expDensity_abs", 0.0), expTemp_abs=p.get("expTemp_abs", 0.0))
+    kw.update(opac)
     if kind != "ED":
         kw["problem"] = kind
     cls = R.ED_Solver if kind == "ED" else R.nED_Solver
